@@ -1,7 +1,52 @@
 import EupsModel.Drv.C06
+import EupsModel.Model.CacheSync
 namespace EupsModel.Drv.C07
-open Lean EupsModel EupsModel.Drv
+open Lean EupsModel EupsModel.Drv EupsModel.CacheSync
+
+def ofNats (l : List Nat) : Json := Json.arr (l.map fun (n : Nat) => (Json.num n : Json)).toArray
+def ofNatOpt : Option Nat → Json
+  | none => Json.null
+  | some n => Json.num n
+def ofInst (x : Inst) : Json := Json.mkObj [("mod", ofNatOpt x.mod), ("mem", ofNats x.mem)]
+def ofSt (s : St) : Json :=
+  Json.mkObj [("now", Json.num s.now), ("db", ofNats s.db), ("dbTime", Json.num s.dbTime),
+    ("file", match s.file with
+      | none => Json.null
+      | some f => Json.mkObj [("mtime", Json.num f.mtime), ("content", ofNats f.content)]),
+    ("fresh", Json.bool (fresh s)), ("i0", ofInst s.i0), ("i1", ofInst s.i1)]
+
+def evOfJson (j : Json) : Except String Ev := do
+  match j with
+  | Json.arr a =>
+    let k ← (a[0]?.getD Json.null).getStr?
+    let i := (a[1]?.getD (Json.num 0)).getNat?.toOption.getD 0
+    match k with
+    | "write" => pure (.write (i != 0))
+    | "check" => pure (.check (i != 0))
+    | "other" => pure .other
+    | "delete" => pure .delete
+    | _ => throw s!"unknown event {k}"
+  | _ => throw "event: array expected"
+
+/-- op "sync": the staleness protocol between two live instances (`Model/CacheSync.lean`): the state after the two
+constructors and after every event -/
+def handleSync (j : Json) : Except String Json := do
+  let fixed ← jbool j "fixed"
+  let n ← jnat j "n"
+  let kind ← jnat j "fileKind"
+  let sysOk ← jbool j "sysOk"
+  let evs ← (← jarr j "evs").mapM evOfJson
+  let gate := match j.getObjVal? "gate" with
+    | .ok (Json.str g) => g
+    | _ => ""
+  let s0 := if gate == "rebuild0" && !sysOk && kind < 2 then initRebuildGate fixed n kind else init fixed n kind sysOk
+  let (_, states) := evs.foldl (fun (acc : St × List St) e => let s' := step fixed acc.1 e; (s', acc.2 ++ [s'])) (s0, [s0])
+  pure (Json.mkObj [("states", Json.arr (states.map ofSt).toArray)])
+
 /-- C07 runs the same world model as C06 (`Drv/C06.lean`): histories with two users, crashes and cache
-deletions. -/
-def handle : Handler := C06.handle
+deletions; op "sync" runs the model of the staleness test between live instances. -/
+def handle : Handler := fun j =>
+  match j.getObjVal? "op" with
+  | .ok (Json.str "sync") => handleSync j
+  | _ => C06.handle j
 end EupsModel.Drv.C07
